@@ -14,7 +14,7 @@ META = {
     "transforms": ["if-conversion (calc_crc24q, _set_attribute_single)"],
     "shims": ["SymStream", "CRC policy: recorded CRC result of each generated frame assumed 0 (good) or != 0 (damaged)", "counting error handler"],
     "bounds": {
-        "quick": "streams of 2 and 3 frames (payload 2/3/19 bytes, payload and CRC bytes symbolic) optionally separated by an NMEA sentence or noise, every subset "
+        "quick": "streams of 2 and 3 frames (payload 2/3/19 bytes, payload and CRC bytes symbolic) optionally separated by an NMEA sentence or noise, incl. verbatim re-broadcasts of a frame with other checksum bytes, every subset "
                  "of damaged frames, modes 0/1/2, with user handler and with the logger path; 8-byte frames with explicit 1-3 bit / burst<=24 error "
                  "patterns through the real if-converted CRC (direct, no decomposition)",
         "thorough": "4 frames, all interleavings with foreign items"},
@@ -26,7 +26,7 @@ WALL_BUDGET = {"quick": 480, "thorough": 3 * 3600}
 
 def jobs(tier, seed):
     out = []
-    shapes = [('R2', 'R3'), ('R3', 'R2', 'R19'), ('R2', 'N', 'R3'), ('R19', 'X1', 'R2'), ('R2', 'R2', 'R2')]
+    shapes = [('R2', 'R3'), ('R3', 'R2', 'R19'), ('R2', 'N', 'R3'), ('R19', 'X1', 'R2'), ('R2', 'R2', 'R2'), ('R3', 'S', 'R2'), ('R19', 'S', 'S')]
     if tier != 'quick':
         shapes += [('R2', 'R3', 'R2', 'R3'), ('R2', 'U2', 'R3', 'N', 'R2'), ('R19', 'R19', 'R2')]
     for sh in [('R2', 'D5', 'R3'), ('D5', 'R2'), ('R19', 'D5')]:
@@ -35,7 +35,7 @@ def jobs(tier, seed):
         for mode in (0, 1, 2):
             out.append(('seq', sh, dmg, mode, True))
     for sh in shapes:
-        nf = len([k for k in sh if k.startswith('R')])
+        nf = len([k for k in sh if k.startswith('R') or k == 'S'])
         for dmg in itertools.chain.from_iterable(itertools.combinations(range(nf), r) for r in range(nf + 1)):
             for mode in (0, 1, 2):
                 out.append(('seq', sh, dmg, mode, True))
